@@ -304,12 +304,20 @@ def fuzz_c(c, case, natives):
     fn = getattr(mod.lib, fname)
     rng = random.Random(case.get("seed", 0))
     gen = Gen(rng, None, c.model)
+    custom_gen = None
+    if c.native_gen:
+        ns = {}
+        exec(c.native_gen, ns)
+        custom_gen = ns["gen"]
     stats = {"generated": 0, "accepted": 0, "evaluated_clauses": 0}
     deadline = time.time() + case.get("seconds", 10)
     found = None
     while stats["generated"] < case.get("n", 3000) and time.time() < deadline and found is None:
         stats["generated"] += 1
-        env = {n: (gen.value(parse_type("float")) if k == "double" else abs(gen.value(parse_type("int")))) for n, k in params}
+        if custom_gen is not None:
+            env = custom_gen(rng)
+        else:
+            env = {n: (gen.value(parse_type("float")) if k == "double" else abs(gen.value(parse_type("int")))) for n, k in params}
         if any(native_eval.eval_clause(r, env, None, c.model, None, natives, strict=True, tol=c.native_tol) is not True
                for r in c.requires + c.assume):
             continue
@@ -318,7 +326,7 @@ def fuzz_c(c, case, natives):
         result = fn(*[env[n] for n, _ in params])
         env["result"] = result
         violated = []
-        for e in c.ensures:
+        for e in c.ensures + c.native_ensures:
             v = native_eval.eval_clause(e, env, old_env, c.model, None, natives, tol=c.native_tol)
             stats["evaluated_clauses"] += 1
             if v is False:
